@@ -124,6 +124,7 @@ BASE_ENV = {
     "Aggregate": lambda s, init, f: functools.reduce(f, s, init),
     "MetaData": lambda s, d: s,
     "__mkdict": _mkdict,
+    "__attrdict": AttrDict,
     "ResultTTree": lambda s, cols, tree, fname: ("ttree", list(s), cols, tree, fname),
     "ResultParquet": lambda s, cols, fname: ("parquet", list(s), cols, fname),
     "ResultPandasDF": lambda s, cols: ("pandas", list(s), cols),
@@ -135,6 +136,9 @@ BASE_ENV = {
 class _Prep(ast.NodeTransformer):
     def visit_Dict(self, node):
         self.generic_visit(node)
+        if any(k is None for k in node.keys):
+            # a literal with ** spreads: AttrDict({...the literal as written...})
+            return ast.Call(ast.Name("__attrdict", ast.Load()), [node], [])
         return ast.Call(
             ast.Name("__mkdict", ast.Load()),
             [ast.List(list(node.keys), ast.Load()), ast.List(list(node.values), ast.Load())],
